@@ -1,4 +1,4 @@
-import Holpy.C18.Model
+import Holpy.C18.ModelRules
 import Holpy.C18.Sem
 import Holpy.C18.Gen
 import Holpy.C18.ProofsHyps
@@ -27,10 +27,10 @@ def classified : List (String × Bool) := [
   ("verit_and", true),
   ("verit_and_neg", true),
   ("verit_and_pos", true),
-  ("verit_and_simplify", false),
+  ("verit_and_simplify", true),
   ("verit_bfun_elim", false),
   ("verit_bind", false),
-  ("verit_bool_simplify", false),
+  ("verit_bool_simplify", true),
   ("verit_comp_simplify", false),
   ("verit_cong", false),
   ("verit_conj_pts", false),
@@ -50,7 +50,7 @@ def classified : List (String × Bool) := [
   ("verit_equiv_neg2", true),
   ("verit_equiv_pos1", true),
   ("verit_equiv_pos2", true),
-  ("verit_equiv_simplify", false),
+  ("verit_equiv_simplify", true),
   ("verit_false", true),
   ("verit_forall_inst", false),
   ("verit_imp_conj", false),
@@ -59,7 +59,7 @@ def classified : List (String × Bool) := [
   ("verit_implies_neg1", true),
   ("verit_implies_neg2", true),
   ("verit_implies_pos", true),
-  ("verit_implies_simplify", false),
+  ("verit_implies_simplify", true),
   ("verit_ite1", true),
   ("verit_ite2", true),
   ("verit_ite_intro", false),
@@ -84,12 +84,12 @@ def classified : List (String × Bool) := [
   ("verit_not_ite2", true),
   ("verit_not_not", true),
   ("verit_not_or", true),
-  ("verit_not_simplify", false),
+  ("verit_not_simplify", true),
   ("verit_onepoint", false),
   ("verit_or", true),
   ("verit_or_neg", true),
   ("verit_or_pos", true),
-  ("verit_or_simplify", false),
+  ("verit_or_simplify", true),
   ("verit_prod_simplify", false),
   ("verit_qnt_cnf", false),
   ("verit_qnt_join", false),
